@@ -415,6 +415,16 @@ func solveOne(pi, i int, p *PathResult, cfg solveCfg) *CheckResult {
 		}(si)
 	}
 	r := &CheckResult{Check: ck, Status: "unknown"}
+	// query files are removed as soon as the obligation is decided, except the
+	// one a report will quote (a mutated tree once left 128 GB of them behind)
+	defer func() {
+		for si := 0; si < n; si++ {
+			f := filepath.Join(cfg.dir, fmt.Sprintf("p%d_c%d_s%d.smt2", pi, i, si))
+			if f != r.Query {
+				os.Remove(f)
+			}
+		}
+	}()
 	var sat, unsat *res
 	var last res
 	for k := 0; k < n; k++ {
